@@ -253,7 +253,7 @@ def css_reference(text):
         i = j
         k = skip(i)
         if k == n:
-            return k == i          # trailing white space without a semicolon is refused by the code as well
+            return True            # trailing white space after the last declaration is fine (no semicolon needed)
         if text[k] != ";":
             return False
         k = skip(k + 1)
@@ -720,6 +720,8 @@ def css_cases(ctx, out):
     texts = []
     for _ in range(ctx.n(1500, 30000)):
         texts.append(rng.choice([g.css_good, g.css_bad, g.css_soup])())
+        if rng.random() < 0.15:      # trailing / leading white space (cannot occur in a Fluent TextElement, only here)
+            texts.append(rng.choice(["", " ", "\n"]) + texts[-1] + rng.choice([" ", "\n", "\t", " \r\n", "  "]))
     toks = ["width", "height", "min-", ":", " ", ";", "1", ".", "5", "em", "px", "\n", "x"]
     L = 4 if ctx.tier == "quick" else 5
     for n in range(L + 1):
